@@ -31,8 +31,9 @@ RULE = (
     "cases = IR values: every transaction lowered from /repo/examples/*.tx3 and from 30 generated programs; random IR "
     "trees (every expression and block variant, depth 1..6, parameters/inputs/fees/compiler ops, boundary integers, a "
     "malformed tail), half of them after apply_inputs so that UTxO sets occur; 6 version names; garbage batches of 400 "
-    "byte strings each (random, bit-flipped, truncated, spliced valid encodings, nesting bombs to depth 10^5, huge "
-    "length prefixes) run in child processes. Non-trivial = every case; distinct = distinct IR value"
+    "byte strings each (random, bit-flipped, truncated, spliced valid encodings, untyped nesting bombs to depth 10^5, typed "
+    "nesting bombs - one of 16 IR wrappers nested 10..10^5 times inside the fees / a reference / a datum slot of a real "
+    "encoding, assembled as bytes - huge length prefixes) decoded on a 2 MiB thread in child processes. Non-trivial = every case; distinct = distinct IR value"
 )
 ASSUMPTIONS = ["UTxO sets and asset maps with more than one element are compared up to element order (HashSet/HashMap iteration order)",
                "equality after the round trip is canonical equality of the harness's exhaustive TIR-to-JSON conversion"]
